@@ -892,7 +892,7 @@ func (n *FuncType) String() string {
 	}
 	s += ")"
 	if len(n.Result) > 0 {
-		if n.Result[0].Ident == nil {
+		if len(n.Result) == 1 && n.Result[0].Ident == nil {
 			s += " " + n.Result[0].Type.String()
 		} else {
 			s += " ("
